@@ -1615,9 +1615,12 @@ static void *peg_unmarshal(JanetMarshalContext *ctx) {
     while (i < blen) {
         uint32_t instr = bytecode[i];
         uint32_t *rule = bytecode + i;
+        /* Number of words left, including this one. Operands are only read if they are inside the bytecode. */
+        uint32_t avail = blen - i;
         op_flags[i] |= 0x02;
         switch (instr) {
             case RULE_LITERAL:
+                if (avail < 2) goto bad;
                 i += 2 + ((rule[1] + 3) >> 2);
                 break;
             case RULE_NCHAR:
@@ -1640,6 +1643,7 @@ static void *peg_unmarshal(JanetMarshalContext *ctx) {
                 break;
             case RULE_LOOK:
                 /* [offset, rule] */
+                if (avail < 3) goto bad;
                 if (rule[2] >= blen) goto bad;
                 op_flags[rule[2]] |= 0x1;
                 i += 3;
@@ -1648,7 +1652,9 @@ static void *peg_unmarshal(JanetMarshalContext *ctx) {
             case RULE_SEQUENCE:
                 /* [len, rules...] */
             {
+                if (avail < 2) goto bad;
                 uint32_t len = rule[1];
+                if (len > avail - 2) goto bad;
                 for (uint32_t j = 0; j < len; j++) {
                     if (rule[2 + j] >= blen) goto bad;
                     op_flags[rule[2 + j]] |= 0x1;
@@ -1660,6 +1666,7 @@ static void *peg_unmarshal(JanetMarshalContext *ctx) {
             case RULE_IFNOT:
             case RULE_LENPREFIX:
                 /* [rule_a, rule_b (b if not a)] */
+                if (avail < 3) goto bad;
                 if (rule[1] >= blen) goto bad;
                 if (rule[2] >= blen) goto bad;
                 op_flags[rule[1]] |= 0x01;
@@ -1668,6 +1675,7 @@ static void *peg_unmarshal(JanetMarshalContext *ctx) {
                 break;
             case RULE_BETWEEN:
                 /* [lo, hi, rule] */
+                if (avail < 4) goto bad;
                 if (rule[3] >= blen) goto bad;
                 op_flags[rule[3]] |= 0x01;
                 i += 4;
@@ -1683,11 +1691,13 @@ static void *peg_unmarshal(JanetMarshalContext *ctx) {
                 break;
             case RULE_CONSTANT:
                 /* [constant, tag] */
+                if (avail < 2) goto bad;
                 if (rule[1] >= clen) goto bad;
                 i += 3;
                 break;
             case RULE_CAPTURE_NUM:
                 /* [rule, base, tag] */
+                if (avail < 2) goto bad;
                 if (rule[1] >= blen) goto bad;
                 op_flags[rule[1]] |= 0x01;
                 i += 4;
@@ -1697,6 +1707,7 @@ static void *peg_unmarshal(JanetMarshalContext *ctx) {
             case RULE_CAPTURE:
             case RULE_UNREF:
                 /* [rule, tag] */
+                if (avail < 2) goto bad;
                 if (rule[1] >= blen) goto bad;
                 op_flags[rule[1]] |= 0x01;
                 i += 3;
@@ -1704,6 +1715,7 @@ static void *peg_unmarshal(JanetMarshalContext *ctx) {
             case RULE_REPLACE:
             case RULE_MATCHTIME:
                 /* [rule, constant, tag] */
+                if (avail < 3) goto bad;
                 if (rule[1] >= blen) goto bad;
                 if (rule[2] >= clen) goto bad;
                 op_flags[rule[1]] |= 0x01;
@@ -1713,6 +1725,7 @@ static void *peg_unmarshal(JanetMarshalContext *ctx) {
             case RULE_TIL:
             case RULE_SPLIT:
                 /* [rule, rule] */
+                if (avail < 3) goto bad;
                 if (rule[1] >= blen) goto bad;
                 if (rule[2] >= blen) goto bad;
                 op_flags[rule[1]] |= 0x01;
@@ -1726,17 +1739,20 @@ static void *peg_unmarshal(JanetMarshalContext *ctx) {
             case RULE_TO:
             case RULE_THRU:
                 /* [rule] */
+                if (avail < 2) goto bad;
                 if (rule[1] >= blen) goto bad;
                 op_flags[rule[1]] |= 0x01;
                 i += 2;
                 break;
             case RULE_READINT:
                 /* [ width | (endianness << 5) | (signedness << 6), tag ] */
+                if (avail < 2) goto bad;
                 if (rule[1] > JANET_MAX_READINT_WIDTH) goto bad;
                 i += 3;
                 break;
             case RULE_NTH:
                 /* [nth, rule, tag] */
+                if (avail < 3) goto bad;
                 if (rule[2] >= blen) goto bad;
                 op_flags[rule[2]] |= 0x01;
                 i += 4;
